@@ -160,6 +160,46 @@ def run_shard(desc, acc):
                                    group_kinds=("alternative", "or", "mutex", "cardinality"), multi_rel=False)
             if in_fragment(spec):
                 structural(acc, spec, "large-random")
+    for j, depth in enumerate((12, 22, 30, 45)):
+        if j % n == i:
+            root = cur = {"name": "D0", "rels": []}
+            for q in range(1, depth):
+                nxt = {"name": f"D{q}", "rels": []}
+                if q % 4 == 0:
+                    cur["rels"].append({"min": 1, "max": 2, "children": [nxt, {"name": f"E{q}", "rels": []}]})
+                else:
+                    cur["rels"].append({"min": q % 2, "max": 1, "children": [nxt]})
+                cur = nxt
+            structural(acc, {"root": root, "ctcs": []}, f"deep-chain-{depth}")
+    for j in range(8):
+        if j % n == i:
+            r = rand.rng(seed, "c11case", j)
+            base = rand.rand_model(r, r.randint(5, 12), group_kinds=("alternative", "or", "mutex"), multi_rel=False)
+            if not in_fragment(base):
+                continue
+            nm = S.feature_names(base)
+            a, b, c = nm[1], nm[2], nm[0]
+            twin = a.swapcase()
+            if twin in nm or twin == a:
+                continue
+            for f in S.features(base["root"]):
+                if f["name"] == b:
+                    f["name"] = twin
+            base["ctcs"] = [{"name": "c0", "ast": ["IMPLIES", a, c]}, {"name": "c1", "ast": ["IMPLIES", twin, c]},
+                            {"name": "c2", "ast": ["EXCLUDES", a, twin]}]
+            run_case(acc, "case-colliding-names", base, [])
+    # one constraint over 11-13 distinct features
+    for j in range(6):
+        if j % n == i:
+            r = rand.rng(seed, "c11wide", j)
+            k = r.randint(11, 13)
+            kids = [{"name": f"K{q}", "rels": []} for q in range(k)]
+            spec = {"root": {"name": "W", "rels": [{"min": 0, "max": 1, "children": [c]} for c in kids]}, "ctcs": []}
+            t = "K0"
+            for q in range(1, k):
+                t = [r.choice(["AND", "OR", "IMPLIES"]), t, f"K{q}"]
+            spec["ctcs"] = [{"name": "wide", "ast": t}]
+            run_case(acc, "wide-constraint", spec, [])
     for wi, k in enumerate((9, 10, 11, 12, 13)):
         if wi % n == i:
             for mn, mx in ((1, 1), (1, k), (0, 1), (2, k - 1), (k, k), (0, k), (3, 3), (0, 2)):
